@@ -49,16 +49,17 @@ type Failure struct {
 
 // KnownFinding is one entry of known_findings.json.
 type KnownFinding struct {
-	Status   string `json:"status"` // "finding" or "fixed"
-	Property string `json:"property"`
-	Family   string `json:"family,omitempty"`    // regexp (anchored) on Failure.Family
-	InputRe  string `json:"input_re,omitempty"`  // regexp (anchored) on Failure.Input
-	ConfigRe string `json:"config_re,omitempty"` // regexp (anchored) on Failure.Config
-	KindRe   string `json:"kind_re,omitempty"`   // regexp (anchored) on Failure.Kind
-	Witness  string `json:"witness"`             // the minimal failing input/call/history
-	What     string `json:"what"`
-	Commit   string `json:"commit,omitempty"` // for fixed entries
-	fam, in, cfg, kind *regexp.Regexp
+	Status                    string `json:"status"` // "finding" or "fixed"
+	Property                  string `json:"property"`
+	Family                    string `json:"family,omitempty"`       // regexp (anchored) on Failure.Family
+	InputRe                   string `json:"input_re,omitempty"`     // regexp (anchored) on Failure.Input
+	InputNot                  string `json:"input_not_re,omitempty"` // regexp (anchored) Failure.Input must NOT match
+	ConfigRe                  string `json:"config_re,omitempty"`    // regexp (anchored) on Failure.Config
+	KindRe                    string `json:"kind_re,omitempty"`      // regexp (anchored) on Failure.Kind
+	Witness                   string `json:"witness"`                // the minimal failing input/call/history
+	What                      string `json:"what"`
+	Commit                    string `json:"commit,omitempty"` // for fixed entries
+	fam, in, notIn, cfg, kind *regexp.Regexp
 }
 
 func anchored(s string) *regexp.Regexp {
@@ -70,11 +71,12 @@ func anchored(s string) *regexp.Regexp {
 
 func (k *KnownFinding) compile() {
 	k.fam, k.in, k.cfg, k.kind = anchored(k.Family), anchored(k.InputRe), anchored(k.ConfigRe), anchored(k.KindRe)
+	k.notIn = anchored(k.InputNot)
 }
 
 func (k *KnownFinding) matches(f *Failure) bool {
 	ok := func(r *regexp.Regexp, s string) bool { return r == nil || r.MatchString(s) }
-	return ok(k.fam, f.Family) && ok(k.in, f.Input) && ok(k.cfg, f.Config) && ok(k.kind, f.Kind)
+	return ok(k.fam, f.Family) && ok(k.in, f.Input) && ok(k.cfg, f.Config) && ok(k.kind, f.Kind) && (k.notIn == nil || !k.notIn.MatchString(f.Input))
 }
 
 // LoadKnown reads the committed known-findings file (never written at run time).
@@ -501,4 +503,62 @@ func Recover(fn func()) (panicked string) {
 	}()
 	fn()
 	return ""
+}
+
+// ParallelStream runs gen in one goroutine (it calls emit for every case, simplest first)
+// and fn on Workers() goroutines. gen should stop early when emit returns false
+// (deadline hit); the family is then marked incomplete.
+func (c *Check) ParallelStream(family string, gen func(emit func(string) bool), fn func(idx uint64, s string)) {
+	type batch struct {
+		base  uint64
+		items []string
+	}
+	ch := make(chan batch, 4*Workers())
+	var wg sync.WaitGroup
+	for w := 0; w < Workers(); w++ {
+		wg.Add(1)
+		go func() {
+			defer wg.Done()
+			for b := range ch {
+				for i, s := range b.items {
+					fn(b.base+uint64(i), s)
+				}
+			}
+		}()
+	}
+	var idx uint64
+	cur := make([]string, 0, 512)
+	stopped := false
+	flush := func() {
+		if len(cur) > 0 {
+			ch <- batch{idx - uint64(len(cur)), cur}
+			cur = make([]string, 0, 512)
+		}
+	}
+	gen(func(s string) bool {
+		if stopped {
+			return false
+		}
+		cur = append(cur, s)
+		idx++
+		if len(cur) == cap(cur) {
+			flush()
+			if c.Expired() {
+				stopped = true
+				return false
+			}
+		}
+		return true
+	})
+	flush()
+	close(ch)
+	wg.Wait()
+	if stopped {
+		c.mu.Lock()
+		c.Exhaustive = false
+		c.mu.Unlock()
+		f := c.Family(family)
+		f.Complete = false
+		f.Bound = fmt.Sprintf("deadline hit after %d cases", idx)
+	}
 }
